@@ -1,0 +1,706 @@
+//go:build verif
+
+package sam
+
+//@ func checkArgs
+//@   ensures implies(result4 == nil, 1 <= result1 && result1 <= result2 && result2 <= refLen)
+//@   ensures implies(result4 == nil && trimstart != -1, result1 == trimstart)
+//@   ensures implies(result4 == nil && trimstart == -1, result1 == 1)
+//@   ensures implies(result4 == nil && trimend != -1, result2 == trimend)
+//@   ensures implies(result4 == nil && trimend == -1, result2 == refLen)
+//@   ensures implies(result4 == nil, result3 == (trimstart != -1 || trimend != -1))
+//@   ensures (result4 == nil) == (1 <= ite(trimstart == -1, 1, trimstart) && ite(trimstart == -1, 1, trimstart) <= ite(trimend == -1, refLen, trimend) && ite(trimend == -1, refLen, trimend) <= refLen)
+
+//@ func swapInNs
+//@   modifies seq
+//@   loop 1:
+//@     invariant forall(j, 0, i, seq[j] == ite(old(seq[j]) == '*', 'N', old(seq[j])))
+//@     invariant forall(j, i, len(seq), seq[j] == old(seq[j]))
+//@   ensures sameslice(result, seq)
+//@   ensures forall(j, 0, len(seq), seq[j] == ite(old(seq[j]) == '*', 'N', old(seq[j])))
+
+//@ # C01/C02: the CIGAR operator tables against the SAM specification: M,=,X consume query and reference; I,S consume
+//@ # the query only; D,N the reference only; H,P nothing. Emitted column characters: query base (M,=,X and, when
+//@ # insertions are kept, I), '-' for D, '*' for N; the reference row carries the reference base on reference-consuming
+//@ # operations and '-' exactly on kept insertions.
+//@ func getCigarOperationMapNoInsertions["M"]
+//@   requires length >= 0
+//@   requires query_start >= 0
+//@   requires ref_start >= 0
+//@   requires query_start + length <= len(seq)
+//@   ensures result1 == query_start + length
+//@   ensures result2 == ref_start + length
+//@   ensures len(result3) == length
+//@   ensures samearray(result3, seq)
+//@   ensures forall(j, 0, length, result3[j] == seq[query_start+j])
+//@ func getCigarOperationMapNoInsertions["I"]
+//@   requires length >= 0
+//@   requires query_start >= 0
+//@   requires ref_start >= 0
+//@   ensures result1 == query_start + length
+//@   ensures result2 == ref_start + 0
+//@   ensures len(result3) == 0
+//@ func getCigarOperationMapNoInsertions["D"]
+//@   requires length >= 0
+//@   requires query_start >= 0
+//@   requires ref_start >= 0
+//@   ensures result1 == query_start + 0
+//@   ensures result2 == ref_start + length
+//@   ensures len(result3) == length
+//@   ensures freshslice(result3)
+//@   ensures forall(j, 0, length, result3[j] == '-')
+//@ func getCigarOperationMapNoInsertions["N"]
+//@   requires length >= 0
+//@   requires query_start >= 0
+//@   requires ref_start >= 0
+//@   ensures result1 == query_start + 0
+//@   ensures result2 == ref_start + length
+//@   ensures len(result3) == length
+//@   ensures freshslice(result3)
+//@   ensures forall(j, 0, length, result3[j] == '*')
+//@ func getCigarOperationMapNoInsertions["S"]
+//@   requires length >= 0
+//@   requires query_start >= 0
+//@   requires ref_start >= 0
+//@   ensures result1 == query_start + length
+//@   ensures result2 == ref_start + 0
+//@   ensures len(result3) == 0
+//@ func getCigarOperationMapNoInsertions["H"]
+//@   requires length >= 0
+//@   requires query_start >= 0
+//@   requires ref_start >= 0
+//@   ensures result1 == query_start + 0
+//@   ensures result2 == ref_start + 0
+//@   ensures len(result3) == 0
+//@ func getCigarOperationMapNoInsertions["P"]
+//@   requires length >= 0
+//@   requires query_start >= 0
+//@   requires ref_start >= 0
+//@   ensures result1 == query_start + 0
+//@   ensures result2 == ref_start + 0
+//@   ensures len(result3) == 0
+//@ func getCigarOperationMapNoInsertions["="]
+//@   requires length >= 0
+//@   requires query_start >= 0
+//@   requires ref_start >= 0
+//@   requires query_start + length <= len(seq)
+//@   ensures result1 == query_start + length
+//@   ensures result2 == ref_start + length
+//@   ensures len(result3) == length
+//@   ensures samearray(result3, seq)
+//@   ensures forall(j, 0, length, result3[j] == seq[query_start+j])
+//@ func getCigarOperationMapNoInsertions["X"]
+//@   requires length >= 0
+//@   requires query_start >= 0
+//@   requires ref_start >= 0
+//@   requires query_start + length <= len(seq)
+//@   ensures result1 == query_start + length
+//@   ensures result2 == ref_start + length
+//@   ensures len(result3) == length
+//@   ensures samearray(result3, seq)
+//@   ensures forall(j, 0, length, result3[j] == seq[query_start+j])
+//@ func getCigarOperationMapWithInsertions["M"]
+//@   requires length >= 0
+//@   requires query_start >= 0
+//@   requires ref_start >= 0
+//@   requires query_start + length <= len(seq)
+//@   ensures result1 == query_start + length
+//@   ensures result2 == ref_start + length
+//@   ensures len(result3) == length
+//@   ensures samearray(result3, seq)
+//@   ensures forall(j, 0, length, result3[j] == seq[query_start+j])
+//@ func getCigarOperationMapWithInsertions["I"]
+//@   requires length >= 0
+//@   requires query_start >= 0
+//@   requires ref_start >= 0
+//@   requires query_start + length <= len(seq)
+//@   ensures result1 == query_start + length
+//@   ensures result2 == ref_start + 0
+//@   ensures len(result3) == length
+//@   ensures samearray(result3, seq)
+//@   ensures forall(j, 0, length, result3[j] == seq[query_start+j])
+//@ func getCigarOperationMapWithInsertions["D"]
+//@   requires length >= 0
+//@   requires query_start >= 0
+//@   requires ref_start >= 0
+//@   ensures result1 == query_start + 0
+//@   ensures result2 == ref_start + length
+//@   ensures len(result3) == length
+//@   ensures freshslice(result3)
+//@   ensures forall(j, 0, length, result3[j] == '-')
+//@ func getCigarOperationMapWithInsertions["N"]
+//@   requires length >= 0
+//@   requires query_start >= 0
+//@   requires ref_start >= 0
+//@   ensures result1 == query_start + 0
+//@   ensures result2 == ref_start + length
+//@   ensures len(result3) == length
+//@   ensures freshslice(result3)
+//@   ensures forall(j, 0, length, result3[j] == '*')
+//@ func getCigarOperationMapWithInsertions["S"]
+//@   requires length >= 0
+//@   requires query_start >= 0
+//@   requires ref_start >= 0
+//@   ensures result1 == query_start + length
+//@   ensures result2 == ref_start + 0
+//@   ensures len(result3) == 0
+//@ func getCigarOperationMapWithInsertions["H"]
+//@   requires length >= 0
+//@   requires query_start >= 0
+//@   requires ref_start >= 0
+//@   ensures result1 == query_start + 0
+//@   ensures result2 == ref_start + 0
+//@   ensures len(result3) == 0
+//@ func getCigarOperationMapWithInsertions["P"]
+//@   requires length >= 0
+//@   requires query_start >= 0
+//@   requires ref_start >= 0
+//@   ensures result1 == query_start + 0
+//@   ensures result2 == ref_start + 0
+//@   ensures len(result3) == 0
+//@ func getCigarOperationMapWithInsertions["="]
+//@   requires length >= 0
+//@   requires query_start >= 0
+//@   requires ref_start >= 0
+//@   requires query_start + length <= len(seq)
+//@   ensures result1 == query_start + length
+//@   ensures result2 == ref_start + length
+//@   ensures len(result3) == length
+//@   ensures samearray(result3, seq)
+//@   ensures forall(j, 0, length, result3[j] == seq[query_start+j])
+//@ func getCigarOperationMapWithInsertions["X"]
+//@   requires length >= 0
+//@   requires query_start >= 0
+//@   requires ref_start >= 0
+//@   requires query_start + length <= len(seq)
+//@   ensures result1 == query_start + length
+//@   ensures result2 == ref_start + length
+//@   ensures len(result3) == length
+//@   ensures samearray(result3, seq)
+//@   ensures forall(j, 0, length, result3[j] == seq[query_start+j])
+//@ func getCigarOperationMapNoInsertionsWithRef["M"]
+//@   requires length >= 0
+//@   requires query_start >= 0
+//@   requires ref_start >= 0
+//@   requires query_start + length <= len(seq)
+//@   requires ref_start + length <= len(refseq)
+//@   ensures result1 == query_start + length
+//@   ensures result2 == ref_start + length
+//@   ensures len(result3) == length
+//@   ensures samearray(result3, seq)
+//@   ensures samearray(result4, refseq)
+//@   ensures forall(j, 0, length, result3[j] == seq[query_start+j])
+//@   ensures len(result4) == len(result3)
+//@   ensures forall(j, 0, length, result4[j] == refseq[ref_start+j])
+//@ func getCigarOperationMapNoInsertionsWithRef["I"]
+//@   requires length >= 0
+//@   requires query_start >= 0
+//@   requires ref_start >= 0
+//@   ensures result1 == query_start + length
+//@   ensures result2 == ref_start + 0
+//@   ensures len(result3) == 0
+//@   ensures len(result4) == len(result3)
+//@ func getCigarOperationMapNoInsertionsWithRef["D"]
+//@   requires length >= 0
+//@   requires query_start >= 0
+//@   requires ref_start >= 0
+//@   requires ref_start + length <= len(refseq)
+//@   ensures result1 == query_start + 0
+//@   ensures result2 == ref_start + length
+//@   ensures len(result3) == length
+//@   ensures freshslice(result3)
+//@   ensures samearray(result4, refseq)
+//@   ensures forall(j, 0, length, result3[j] == '-')
+//@   ensures len(result4) == len(result3)
+//@   ensures forall(j, 0, length, result4[j] == refseq[ref_start+j])
+//@ func getCigarOperationMapNoInsertionsWithRef["N"]
+//@   requires length >= 0
+//@   requires query_start >= 0
+//@   requires ref_start >= 0
+//@   requires ref_start + length <= len(refseq)
+//@   ensures result1 == query_start + 0
+//@   ensures result2 == ref_start + length
+//@   ensures len(result3) == length
+//@   ensures freshslice(result3)
+//@   ensures samearray(result4, refseq)
+//@   ensures forall(j, 0, length, result3[j] == '*')
+//@   ensures len(result4) == len(result3)
+//@   ensures forall(j, 0, length, result4[j] == refseq[ref_start+j])
+//@ func getCigarOperationMapNoInsertionsWithRef["S"]
+//@   requires length >= 0
+//@   requires query_start >= 0
+//@   requires ref_start >= 0
+//@   ensures result1 == query_start + length
+//@   ensures result2 == ref_start + 0
+//@   ensures len(result3) == 0
+//@   ensures len(result4) == len(result3)
+//@ func getCigarOperationMapNoInsertionsWithRef["H"]
+//@   requires length >= 0
+//@   requires query_start >= 0
+//@   requires ref_start >= 0
+//@   ensures result1 == query_start + 0
+//@   ensures result2 == ref_start + 0
+//@   ensures len(result3) == 0
+//@   ensures len(result4) == len(result3)
+//@ func getCigarOperationMapNoInsertionsWithRef["P"]
+//@   requires length >= 0
+//@   requires query_start >= 0
+//@   requires ref_start >= 0
+//@   ensures result1 == query_start + 0
+//@   ensures result2 == ref_start + 0
+//@   ensures len(result3) == 0
+//@   ensures len(result4) == len(result3)
+//@ func getCigarOperationMapNoInsertionsWithRef["="]
+//@   requires length >= 0
+//@   requires query_start >= 0
+//@   requires ref_start >= 0
+//@   requires query_start + length <= len(seq)
+//@   requires ref_start + length <= len(refseq)
+//@   ensures result1 == query_start + length
+//@   ensures result2 == ref_start + length
+//@   ensures len(result3) == length
+//@   ensures samearray(result3, seq)
+//@   ensures samearray(result4, refseq)
+//@   ensures forall(j, 0, length, result3[j] == seq[query_start+j])
+//@   ensures len(result4) == len(result3)
+//@   ensures forall(j, 0, length, result4[j] == refseq[ref_start+j])
+//@ func getCigarOperationMapNoInsertionsWithRef["X"]
+//@   requires length >= 0
+//@   requires query_start >= 0
+//@   requires ref_start >= 0
+//@   requires query_start + length <= len(seq)
+//@   requires ref_start + length <= len(refseq)
+//@   ensures result1 == query_start + length
+//@   ensures result2 == ref_start + length
+//@   ensures len(result3) == length
+//@   ensures samearray(result3, seq)
+//@   ensures samearray(result4, refseq)
+//@   ensures forall(j, 0, length, result3[j] == seq[query_start+j])
+//@   ensures len(result4) == len(result3)
+//@   ensures forall(j, 0, length, result4[j] == refseq[ref_start+j])
+//@ func getCigarOperationMapWithInsertionsWithRef["M"]
+//@   requires length >= 0
+//@   requires query_start >= 0
+//@   requires ref_start >= 0
+//@   requires query_start + length <= len(seq)
+//@   requires ref_start + length <= len(refseq)
+//@   ensures result1 == query_start + length
+//@   ensures result2 == ref_start + length
+//@   ensures len(result3) == length
+//@   ensures samearray(result3, seq)
+//@   ensures samearray(result4, refseq)
+//@   ensures forall(j, 0, length, result3[j] == seq[query_start+j])
+//@   ensures len(result4) == len(result3)
+//@   ensures forall(j, 0, length, result4[j] == refseq[ref_start+j])
+//@ func getCigarOperationMapWithInsertionsWithRef["I"]
+//@   requires length >= 0
+//@   requires query_start >= 0
+//@   requires ref_start >= 0
+//@   requires query_start + length <= len(seq)
+//@   ensures result1 == query_start + length
+//@   ensures result2 == ref_start + 0
+//@   ensures len(result3) == length
+//@   ensures samearray(result3, seq)
+//@   ensures freshslice(result4)
+//@   ensures forall(j, 0, length, result3[j] == seq[query_start+j])
+//@   ensures len(result4) == len(result3)
+//@   ensures forall(j, 0, length, result4[j] == '-')
+//@ func getCigarOperationMapWithInsertionsWithRef["D"]
+//@   requires length >= 0
+//@   requires query_start >= 0
+//@   requires ref_start >= 0
+//@   requires ref_start + length <= len(refseq)
+//@   ensures result1 == query_start + 0
+//@   ensures result2 == ref_start + length
+//@   ensures len(result3) == length
+//@   ensures freshslice(result3)
+//@   ensures samearray(result4, refseq)
+//@   ensures forall(j, 0, length, result3[j] == '-')
+//@   ensures len(result4) == len(result3)
+//@   ensures forall(j, 0, length, result4[j] == refseq[ref_start+j])
+//@ func getCigarOperationMapWithInsertionsWithRef["N"]
+//@   requires length >= 0
+//@   requires query_start >= 0
+//@   requires ref_start >= 0
+//@   requires ref_start + length <= len(refseq)
+//@   ensures result1 == query_start + 0
+//@   ensures result2 == ref_start + length
+//@   ensures len(result3) == length
+//@   ensures freshslice(result3)
+//@   ensures samearray(result4, refseq)
+//@   ensures forall(j, 0, length, result3[j] == '*')
+//@   ensures len(result4) == len(result3)
+//@   ensures forall(j, 0, length, result4[j] == refseq[ref_start+j])
+//@ func getCigarOperationMapWithInsertionsWithRef["S"]
+//@   requires length >= 0
+//@   requires query_start >= 0
+//@   requires ref_start >= 0
+//@   ensures result1 == query_start + length
+//@   ensures result2 == ref_start + 0
+//@   ensures len(result3) == 0
+//@   ensures len(result4) == len(result3)
+//@ func getCigarOperationMapWithInsertionsWithRef["H"]
+//@   requires length >= 0
+//@   requires query_start >= 0
+//@   requires ref_start >= 0
+//@   ensures result1 == query_start + 0
+//@   ensures result2 == ref_start + 0
+//@   ensures len(result3) == 0
+//@   ensures len(result4) == len(result3)
+//@ func getCigarOperationMapWithInsertionsWithRef["P"]
+//@   requires length >= 0
+//@   requires query_start >= 0
+//@   requires ref_start >= 0
+//@   ensures result1 == query_start + 0
+//@   ensures result2 == ref_start + 0
+//@   ensures len(result3) == 0
+//@   ensures len(result4) == len(result3)
+//@ func getCigarOperationMapWithInsertionsWithRef["="]
+//@   requires length >= 0
+//@   requires query_start >= 0
+//@   requires ref_start >= 0
+//@   requires query_start + length <= len(seq)
+//@   requires ref_start + length <= len(refseq)
+//@   ensures result1 == query_start + length
+//@   ensures result2 == ref_start + length
+//@   ensures len(result3) == length
+//@   ensures samearray(result3, seq)
+//@   ensures samearray(result4, refseq)
+//@   ensures forall(j, 0, length, result3[j] == seq[query_start+j])
+//@   ensures len(result4) == len(result3)
+//@   ensures forall(j, 0, length, result4[j] == refseq[ref_start+j])
+//@ func getCigarOperationMapWithInsertionsWithRef["X"]
+//@   requires length >= 0
+//@   requires query_start >= 0
+//@   requires ref_start >= 0
+//@   requires query_start + length <= len(seq)
+//@   requires ref_start + length <= len(refseq)
+//@   ensures result1 == query_start + length
+//@   ensures result2 == ref_start + length
+//@   ensures len(result3) == length
+//@   ensures samearray(result3, seq)
+//@   ensures samearray(result4, refseq)
+//@   ensures forall(j, 0, length, result3[j] == seq[query_start+j])
+//@   ensures len(result4) == len(result3)
+//@   ensures forall(j, 0, length, result4[j] == refseq[ref_start+j])
+
+//@ spec consQ(k string) bool = k == "M" || k == "=" || k == "X" || k == "I" || k == "S"
+//@ spec consR(k string) bool = k == "M" || k == "=" || k == "X" || k == "D" || k == "N"
+//@ spec validOp(k string) bool = k == "M" || k == "I" || k == "D" || k == "N" || k == "S" || k == "H" || k == "P" || k == "=" || k == "X"
+//@ # input validity of one SAM record, as abstract predicates: only the nine SAM operations; every prefix of the CIGAR
+//@ # consumes at most seqlen query bases; every prefix ends at or before reference position reflen
+//@ pred validCigar(c biogosam.Cigar) = forall(k, 0, len(c), validOp(opkind(c[k])))
+//@ pred cigarFitsQ(c biogosam.Cigar, seqlen int) = forall(m, 0, len(c) + 1, sum(k, 0, m, ite(consQ(opkind(c[k])), oplen(c[k]), 0)) <= seqlen)
+//@ pred cigarFitsR(c biogosam.Cigar, pos int, reflen int) = forall(m, 0, len(c) + 1, pos + sum(k, 0, m, ite(consR(opkind(c[k])), oplen(c[k]), 0)) <= reflen)
+
+//@ # getOneLine: the CIGAR walk. Input validity (assumptions about the SAM record, stated as preconditions): the nine SAM
+//@ # operations only; every prefix of the CIGAR consumes at most len(SEQ) query bases and, without insertions, ends at or
+//@ # before the reference end. Ghost-free: qstart / rstart are pinned to the SAM-spec prefix sums; each appended segment is
+//@ # asserted, where it is appended, to be the SAM-spec projection of that operation; leading positions are '*'.
+//@ func getOneLine
+//@   requires refLen >= 0
+//@   requires validCigar(samLine.Cigar)
+//@   requires cigarFitsQ(samLine.Cigar, samLine.Seq.Length)
+//@   requires implies(!includeInsertions, cigarFitsR(samLine.Cigar, samLine.Pos, refLen))
+//@   loop 2:
+//@     invariant qstart == sum(k, 0, range_i, ite(consQ(opkind(samLine.Cigar[k])), oplen(samLine.Cigar[k]), 0)) && qstart >= 0
+//@     invariant rstart == POS + sum(k, 0, range_i, ite(consR(opkind(samLine.Cigar[k])), oplen(samLine.Cigar[k]), 0)) && rstart >= POS
+//@     invariant implies(!includeInsertions, len(newSeqArray) == rstart)
+//@     invariant len(newSeqArray) >= POS && forall(j, 0, POS, newSeqArray[j] == '*') && freshslice(newSeqArray) && len(SEQ) == samLine.Seq.Length
+//@   before call:String#1: assert [prefix] sum(k, 0, range_i + 1, ite(consQ(opkind(samLine.Cigar[k])), oplen(samLine.Cigar[k]), 0)) <= samLine.Seq.Length && implies(!includeInsertions, samLine.Pos + sum(k, 0, range_i + 1, ite(consR(opkind(samLine.Cigar[k])), oplen(samLine.Cigar[k]), 0)) <= refLen)
+//@   after append#1: assert [column.query] implies(consQ(operation) && (consR(operation) || (includeInsertions && operation == "I")), len(newSeqArray) >= size && forall(j, 0, size, newSeqArray[len(newSeqArray) - size + j] == SEQ[qstart + j]))
+//@   after append#1: assert [column.del] implies(operation == "D", len(newSeqArray) >= size && forall(j, 0, size, newSeqArray[len(newSeqArray) - size + j] == '-'))
+//@   after append#1: assert [column.skip] implies(operation == "N", len(newSeqArray) >= size && forall(j, 0, size, newSeqArray[len(newSeqArray) - size + j] == '*'))
+//@   ensures (result2 != nil) == (samLine.Pos < 0)
+//@   ensures [length] implies(result2 == nil && !includeInsertions, len(result1) == refLen)
+//@   ensures [fresh] freshslice(result1)
+//@   ensures [leading] implies(result2 == nil, len(result1) >= samLine.Pos && forall(j, 0, samLine.Pos, result1[j] == '*'))
+//@   ensures [trailing] implies(result2 == nil && !includeInsertions, forall(j, samLine.Pos + sum(k, 0, len(samLine.Cigar), ite(consR(opkind(samLine.Cigar[k])), oplen(samLine.Cigar[k]), 0)), refLen, result1[j] == '*'))
+
+//@ # getOneLinePlusRef: as getOneLine with a reference row: equal lengths throughout; each appended segment of the reference
+//@ # row is the reference itself on reference-consuming operations and '-' on kept insertions; leading columns copy the reference.
+//@ func getOneLinePlusRef
+//@   requires validCigar(samLine.Cigar)
+//@   requires samLine.Pos <= len(reference)
+//@   requires cigarFitsQ(samLine.Cigar, samLine.Seq.Length)
+//@   requires cigarFitsR(samLine.Cigar, samLine.Pos, len(reference))
+//@   loop 2:
+//@     invariant forall(j, 0, i, newRefSeqArray[j] == reference[j]) && len(newRefSeqArray) == POS && freshslice(newRefSeqArray) && freshslice(newSeqArray) && disjoint(newSeqArray, newRefSeqArray) && forall(j, 0, POS, newSeqArray[j] == '*')
+//@   loop 3:
+//@     invariant qstart == sum(k, 0, range_i, ite(consQ(opkind(samLine.Cigar[k])), oplen(samLine.Cigar[k]), 0)) && qstart >= 0
+//@     invariant rstart == POS + sum(k, 0, range_i, ite(consR(opkind(samLine.Cigar[k])), oplen(samLine.Cigar[k]), 0)) && rstart >= POS
+//@     invariant len(newSeqArray) == len(newRefSeqArray) && implies(!includeInsertions, len(newSeqArray) == rstart)
+//@     invariant len(newSeqArray) >= POS && forall(j, 0, POS, newSeqArray[j] == '*' && newRefSeqArray[j] == reference[j])
+//@     invariant freshslice(newSeqArray) && freshslice(newRefSeqArray) && disjoint(newSeqArray, newRefSeqArray) && disjoint(newSeqArray, SEQ) && disjoint(newRefSeqArray, SEQ) && freshslice(SEQ) && len(SEQ) == samLine.Seq.Length
+//@   before call:String#1: assert [prefix] sum(k, 0, range_i + 1, ite(consQ(opkind(samLine.Cigar[k])), oplen(samLine.Cigar[k]), 0)) <= samLine.Seq.Length && samLine.Pos + sum(k, 0, range_i + 1, ite(consR(opkind(samLine.Cigar[k])), oplen(samLine.Cigar[k]), 0)) <= len(reference)
+//@   after append#2: assert [column.query] implies(consQ(operation) && (consR(operation) || (includeInsertions && operation == "I")), len(newSeqArray) >= size && forall(j, 0, size, newSeqArray[len(newSeqArray) - size + j] == SEQ[qstart + j]))
+//@   after append#2: assert [column.ref] implies(consR(operation), len(newRefSeqArray) >= size && forall(j, 0, size, newRefSeqArray[len(newRefSeqArray) - size + j] == reference[rstart + j]))
+//@   after append#2: assert [column.ins] implies(includeInsertions && operation == "I", len(newRefSeqArray) >= size && forall(j, 0, size, newRefSeqArray[len(newRefSeqArray) - size + j] == '-'))
+//@   after append#2: assert [column.del] implies(operation == "D", forall(j, 0, size, newSeqArray[len(newSeqArray) - size + j] == '-'))
+//@   ensures (result3 != nil) == (samLine.Pos < 0)
+//@   ensures [rows] implies(result3 == nil && includeInsertions, len(result1) == len(result2))
+//@   ensures [leading] implies(result3 == nil, len(result1) >= samLine.Pos && len(result2) >= samLine.Pos && forall(j, 0, samLine.Pos, result1[j] == '*' && result2[j] == reference[j]))
+
+//@ # flattening one alignment column of a multi-record query
+//@ spec isLetterB(b byte) bool = (b >= 'A' && b <= 'Z') || (b >= 'a' && b <= 'z')
+//@ func getSetFromSlice
+//@   loop 1:
+//@     invariant forallb(b, in(m, b) == exists(j, 0, range_i, s[j] == b)) && forallb(b, implies(in(m, b), m[b]))
+//@   loop 2:
+//@     invariant len(s_out) == range_i && forall(j, 0, range_i, s_out[j] == mapkey(j)) && freshslice(s_out)
+//@   before return#1: assert [hint.enum] forall(t, 0, len(s), 0 <= mapidx(s[t]) && mapidx(s[t]) < len(m) && mapkey(mapidx(s[t])) == s[t] && s_out[mapidx(s[t])] == s[t])
+//@   ensures [members] forall(j, 0, len(result), exists(t, 0, len(s), s[t] == result[j]))
+//@   ensures [complete] forall(t, 0, len(s), exists(j, 0, len(result), result[j] == s[t]))
+//@   ensures [distinct] forall(a, 0, len(result), forall(b, a + 1, len(result), result[a] != result[b]))
+
+//@ # getNucFromSite (property C01): two different letters at a site give 'N'; otherwise the maximum byte of the site, so a
+//@ # base (letter) beats a deletion '-' (45) beats no coverage '*' (42). gFirst / gSecond are ghost witnesses of letters found.
+//@ func getNucFromSite
+//@   requires len(s) >= 1
+//@   ghost gFirst int = 0
+//@   ghost gSecond int = 0
+//@   loop 1:
+//@     invariant 0 <= check && check <= range_i
+//@     invariant implies(check == 0, forall(j, 0, range_i, !isLetterB(ss[j])))
+//@     invariant implies(check == 1, 0 <= gFirst && gFirst < range_i && isLetterB(ss[gFirst]) && forall(j, 0, range_i, j == gFirst || !isLetterB(ss[j])))
+//@     invariant implies(check >= 2, 0 <= gFirst && gFirst < gSecond && gSecond < range_i && isLetterB(ss[gFirst]) && isLetterB(ss[gSecond]))
+//@     do-end if isLetterB(ss[range_i]) { if check == 1 { gFirst = range_i } else { if check == 2 { gSecond = range_i } } }
+//@   loop 2:
+//@     invariant implies(i > 0, exists(j, 0, i, ss[j] == m) && forall(j, 0, i, ss[j] <= m))
+//@   ensures [conflict] implies(exists(a, 0, len(s), exists(b, 0, len(s), isLetterB(s[a]) && isLetterB(s[b]) && s[a] != s[b])), result == 'N')
+//@   ensures [max] implies(!exists(a, 0, len(s), exists(b, 0, len(s), isLetterB(s[a]) && isLetterB(s[b]) && s[a] != s[b])), forall(j, 0, len(s), s[j] <= result) && exists(j, 0, len(s), s[j] == result))
+
+//@ # checkAndGetFlattenedSeq: column-wise flattening of k records of equal length. Proved: length, and that a column with
+//@ # two different letters becomes 'N'. The 'otherwise the maximum of the column' half (proved for getNucFromSite on one
+//@ # site) did not transfer through the per-row offsets within the time limit and is not claimed at this level.
+//@ func checkAndGetFlattenedSeq
+//@   requires len(block) >= 1 && forall(i, 0, len(block), len(block[i]) == len(block[0]))
+//@   loop 1:
+//@     invariant len(seq) == len(block[0]) && len(site) == len(block) && freshslice(seq) && freshslice(site) && disjoint(seq, site)
+//@     invariant forall(c, 0, j, implies(exists(a, 0, len(block), exists(b, 0, len(block), isLetterB(block[a][c]) && isLetterB(block[b][c]) && block[a][c] != block[b][c])), seq[c] == 'N'))
+//@   loop 2:
+//@     invariant len(site) == len(block) && forall(r, 0, i, site[r] == block[r][j]) && freshslice(site) && freshslice(seq) && disjoint(seq, site)
+//@   ensures len(result) == len(block[0]) && freshslice(result)
+//@   ensures [conflict] forall(c, 0, len(block[0]), implies(exists(a, 0, len(block), exists(b, 0, len(block), isLetterB(block[a][c]) && isLetterB(block[b][c]) && block[a][c] != block[b][c])), result[c] == 'N'))
+
+//@ # swapInGapsNs (C01): uncovered positions ('*') become '-' outside the first/last aligned base and 'N' between them;
+//@ # everything else is unchanged. gHas / gFirst / gLast are the specification's "first and last letter" of the input.
+//@ func swapInGapsNs
+//@   modifies seq
+//@   loop 1:
+//@     invariant firstLetter == !exists(j, 0, i, isLetterB(seq[j]))
+//@     invariant implies(!firstLetter, 0 <= firstLetterIndx && firstLetterIndx <= lastLetterIndx && lastLetterIndx < i && isLetterB(seq[firstLetterIndx]) && isLetterB(seq[lastLetterIndx]) && forall(j, 0, firstLetterIndx, !isLetterB(seq[j])) && forall(j, lastLetterIndx + 1, i, !isLetterB(seq[j])))
+//@     invariant implies(firstLetter, firstLetterIndx == 0 && lastLetterIndx == 0)
+//@     invariant forall(j, 0, len(seq), seq[j] == old(seq[j]))
+//@   loop 2:
+//@     invariant forall(j, i, len(seq), seq[j] == old(seq[j]))
+//@     invariant forall(j, 0, i, seq[j] == ite(old(seq[j]) == '*', byte('-'), old(seq[j])))
+//@   loop 3:
+//@     invariant forall(j, i, len(seq), seq[j] == old(seq[j]))
+//@     invariant forall(j, 0, i, implies(old(seq[j]) != '*', seq[j] == old(seq[j])))
+//@     invariant forall(j, 0, i, implies(old(seq[j]) == '*', seq[j] == ite(j < firstLetterIndx || j > lastLetterIndx, byte('-'), byte('N'))))
+//@   ensures sameslice(result, seq)
+//@   ensures [kept] forall(j, 0, len(seq), implies(old(seq[j]) != '*', seq[j] == old(seq[j])))
+//@   ensures [noletters] implies(!exists(j, 0, len(seq), isLetterB(old(seq[j]))), forall(j, 0, len(seq), implies(old(seq[j]) == '*', seq[j] == '-')))
+//@   ensures [flanks] forall(j, 0, len(seq), implies(old(seq[j]) == '*' && (forall(k, 0, j, !isLetterB(old(seq[k]))) || forall(k, j + 1, len(seq), !isLetterB(old(seq[k])))), seq[j] == '-'))
+//@   ensures [internal] forall(j, 0, len(seq), implies(old(seq[j]) == '*' && exists(k, 0, j, isLetterB(old(seq[k]))) && exists(k, j + 1, len(seq), isLetterB(old(seq[k]))), seq[j] == 'N'))
+
+//@ # getFastaRecord (C15/C01): windowing after flank rewriting. U = the untrimmed row (swapInGapsNs resp. swapInNs of the
+//@ # raw row). trim && !pad: Seq = U[trimstart-1 : trimend]; trim && pad: everything outside the window is 'N'; !trim: U.
+//@ func getFastaRecord
+//@   modifies rawseq
+//@   requires implies(trim, 1 <= trimstart && trimstart <= trimend && trimend <= len(rawseq))
+//@   loop 1:
+//@     invariant sameslice(seq, rawseq) && forall(j, i, len(seq), seq[j] == ite(old(rawseq[j]) == '*', byte('N'), old(rawseq[j])))
+//@     invariant forall(j, 0, i, seq[j] == ite(j < trimstart-1 || j >= trimend, byte('N'), ite(old(rawseq[j]) == '*', byte('N'), old(rawseq[j]))))
+//@   ensures result.ID == id && result.Description == id && result.Idx == idx
+//@   ensures [len] len(result.Seq) == ite(trim && !pad, trimend - trimstart + 1, len(rawseq))
+//@   ensures [pad] implies(pad, forall(j, 0, len(rawseq), result.Seq[j] == ite(trim && (j < trimstart-1 || j >= trimend), byte('N'), ite(old(rawseq[j]) == '*', byte('N'), old(rawseq[j])))))
+//@   ensures [nopad.kept] implies(!pad, forall(j, 0, len(result.Seq), implies(old(rawseq[j + ite(trim, trimstart-1, 0)]) != '*', result.Seq[j] == old(rawseq[j + ite(trim, trimstart-1, 0)]))))
+//@   ensures [nopad.flank] implies(!pad, forall(j, 0, len(result.Seq), implies(old(rawseq[j + ite(trim, trimstart-1, 0)]) == '*' && (forall(k, 0, j + ite(trim, trimstart-1, 0), !isLetterB(old(rawseq[k]))) || forall(k, j + ite(trim, trimstart-1, 0) + 1, len(rawseq), !isLetterB(old(rawseq[k])))), result.Seq[j] == '-')))
+//@   ensures [nopad.internal] implies(!pad, forall(j, 0, len(result.Seq), implies(old(rawseq[j + ite(trim, trimstart-1, 0)]) == '*' && exists(k, 0, j + ite(trim, trimstart-1, 0), isLetterB(old(rawseq[k]))) && exists(k, j + ite(trim, trimstart-1, 0) + 1, len(rawseq), isLetterB(old(rawseq[k]))), result.Seq[j] == 'N')))
+
+//@ # getSeqFromBlock: one row per record via getOneLine, flattened when there are several
+//@ func getSeqFromBlock
+//@   requires len(records) >= 1 && refLen >= 0
+//@   requires forall(r, 0, len(records), validCigar(records[r].Cigar) && cigarFitsQ(records[r].Cigar, records[r].Seq.Length) && cigarFitsR(records[r].Cigar, records[r].Pos, refLen))
+//@   requires !includeInsertions
+//@   loop 1:
+//@     invariant len(block) == len(records) && freshslice(block) && forall(r, 0, i, len(block[r]) == refLen && freshslice(block[r]))
+//@   loop 2:
+//@     invariant len(block) == len(records) && freshslice(block) && forall(r, 0, range_i, len(block[r]) == refLen) && forall(r, range_i, len(block), len(block[r]) == refLen) && forall(r, 0, range_i, records[r].Pos >= 0) && forall(r, 0, len(block), freshslice(block[r]))
+//@   ensures [err] (result2 != nil) == exists(r, 0, len(records), records[r].Pos < 0)
+//@   ensures [len] implies(result2 == nil, len(result1) == refLen)
+//@   ensures [fresh] freshslice(result1)
+
+//@ # blockToFastaRecord (C01/C12): one FASTA record per block, carrying the block's input index and the first record's name
+//@ func blockToFastaRecord
+//@   modifies ch_out, ch_err
+//@   requires refLen >= 0 && !includeInsertions
+//@   requires implies(trim, 1 <= trimstart && trimstart <= trimend && trimend <= refLen)
+//@   requires forall(t, 0, len(recv(ch_in)), len(recv(ch_in)[t].records) >= 1)
+//@   requires forall(t, 0, len(recv(ch_in)), forall(r, 0, len(recv(ch_in)[t].records), recv(ch_in)[t].records[r].Pos >= 0 && validCigar(recv(ch_in)[t].records[r].Cigar) && cigarFitsQ(recv(ch_in)[t].records[r].Cigar, recv(ch_in)[t].records[r].Seq.Length) && cigarFitsR(recv(ch_in)[t].records[r].Cigar, recv(ch_in)[t].records[r].Pos, refLen)))
+//@   loop 1:
+//@     invariant len(sent(ch_out)) == range_i
+//@     invariant forall(t, 0, range_i, sent(ch_out)[t].Idx == recv(ch_in)[t].idx)
+//@   ensures len(sent(ch_out)) == len(recv(ch_in)) && forall(t, 0, len(recv(ch_in)), sent(ch_out)[t].Idx == recv(ch_in)[t].idx)
+
+//@ # groupSamRecords (C01/C12/C18): sweep + grouping facts
+//@ func groupSamRecords
+//@   modifies cHeader, chnl, cdone, cerr
+//@   ghost gKept int = 0
+//@   loop 1:
+//@     invariant len(sent(cdone)) == 0 && counter == len(sent(chnl)) && samLineGroup.idx == counter && counter >= 0
+//@     invariant first == (len(samLineGroup.records) == 0) && implies(first, counter == 0)
+//@     invariant forall(r, 0, len(samLineGroup.records), samLineGroup.records[r].Name == previous)
+//@     invariant forall(t, 0, len(sent(chnl)), sent(chnl)[t].idx == t && len(sent(chnl)[t].records) >= 1)
+//@   after append#1: assert [kept.1] ((rec.Flags >> 2) & 1) != 1 && ((rec.Flags >> 8) & 1) != 1
+//@   after append#2: assert [kept.2] ((rec.Flags >> 2) & 1) != 1 && ((rec.Flags >> 8) & 1) != 1
+//@   after append#3: assert [kept.3] ((rec.Flags >> 2) & 1) != 1 && ((rec.Flags >> 8) & 1) != 1
+//@   before send#4: assert [block] samLineGroup.idx == len(sent(chnl)) && len(samLineGroup.records) >= 1 && forall(r, 0, len(samLineGroup.records), samLineGroup.records[r].Name == previous) && rec.Name != previous
+//@   ensures [c18.reader] implies(len(sent(cHeader)) == 0, len(sent(cerr)) >= 1 && len(sent(cdone)) == 0 && len(sent(chnl)) == 0)
+//@   ensures [idx] forall(t, 0, len(sent(chnl)), sent(chnl)[t].idx == t && len(sent(chnl)[t].records) >= 1)
+
+//@ # C18: validation prefixes of the entry points (statements before the first goroutine)
+//@ func ToPairAlign prefix
+//@   modifies everything
+//@   after if#2: assert [c18.oneref] len(refs) == 1
+//@   after if#3: assert [c18.window] 1 <= trimStart && trimStart <= trimEnd && trimEnd <= len(refSeq)
+//@ func Variants prefix
+//@   modifies everything
+//@   after if#3: assert [c18.oneref] len(refs) == 1
+
+//@ # C11 (SAM side): each received pair's rows are byte-encoded in place with the encoding table (so they are the rows
+//@ # `variants` reads from the FASTA form of the same pair, C16/EA_case), the offset tables are GetMSAOffsets of the
+//@ # encoded reference row, and GetVariantsPair's result is forwarded unchanged.
+//@ func getVariantsSam
+//@   modifies everything
+//@   requires forall(t, 0, len(recv(cAlignPair)), len(recv(cAlignPair)[t].ref) == len(recv(cAlignPair)[t].query) && disjoint(recv(cAlignPair)[t].ref, recv(cAlignPair)[t].query))
+//@   loop 1:
+//@     writes everything
+//@     invariant len(sent(cVariants)) == range_i && len(sent(cErr)) == 0
+//@     invariant forall(t, 0, range_i, sent(cVariants)[t].Queryname == recv(cAlignPair)[t].queryname && sent(cVariants)[t].Idx == recv(cAlignPair)[t].idx)
+//@   loop 2:
+//@     invariant len(sent(cVariants)) == range_i1 && len(sent(cErr)) == 0
+//@     invariant forall(j, 0, range_i, pair.query[j] == EA[pre(1, pair.query[j])]) && forall(j, range_i, len(pair.query), pair.query[j] == pre(1, pair.query[j]))
+//@     invariant forall(j, 0, len(pair.ref), pair.ref[j] == pre(1, pair.ref[j]))
+//@   loop 3:
+//@     invariant len(sent(cVariants)) == range_i1 && len(sent(cErr)) == 0
+//@     invariant forall(j, 0, len(pair.query), pair.query[j] == EA[pre(1, pair.query[j])])
+//@     invariant forall(j, 0, range_i, pair.ref[j] == EA[pre(1, pair.ref[j])]) && forall(j, range_i, len(pair.ref), pair.ref[j] == pre(1, pair.ref[j]))
+//@   before call:GetVariantsPair#1: assert [c11.args] pair == recv(cAlignPair)[range_i] && forall(j, 0, len(pair.ref), pair.ref[j] == EA[pre(1, pair.ref[j])] && pair.query[j] == EA[pre(1, pair.query[j])])
+//@   before call:GetVariantsPair#1: assert [c11.offsets] len(offsetMSACoord) == len(pair.ref) && forall(j, 0, len(pair.ref), implies(pair.ref[j] != 244, offsetMSACoord[j] == count(k, 0, j, pair.ref[k] == 244)) && implies(pair.ref[j] == 244, offsetMSACoord[j] == 0))
+//@   before call:GetVariantsPair#1: assert [c11.wiring] sameslice(arg(0), pair.ref) && sameslice(arg(1), pair.query) && arg(2) == pair.refname && arg(3) == pair.queryname && arg(4) == pair.idx && sameslice(arg(5), cdsregions) && sameslice(arg(6), intregions) && sameslice(arg(7), offsetRefCoord) && sameslice(arg(8), offsetMSACoord)
+//@   before call:GetMSAOffsets#1: assert [c11.offsets.of] sameslice(arg(0), pair.ref)
+//@   before send#2: assert [c11.forward] err == nil && AS.Queryname == pair.queryname && AS.Idx == pair.idx
+
+//@ # C02: re-gapping the rows of one query's records for each other's insertions, then flattening.
+//@ # Under contract: every re-gapping step INSERTS the gap run (the new row is the old row with '-' x length put in front
+//@ # of column start+offset; nothing is overwritten, F7), in both rows at the same column; rows handed to the flattening have
+//@ # equal lengths. The global statement (reference row without '-' is the reference, ...) is checked bounded: oracle sam_topa.
+//@ func blockToSeqPair
+//@   modifies everything
+//@   requires len(alignedBlock.seqpairArray) >= 1 && len(alignedBlock.cigarArray) == len(alignedBlock.seqpairArray) && len(alignedBlock.posArray) == len(alignedBlock.seqpairArray)
+//@   requires forall(a, 0, len(alignedBlock.seqpairArray), len(alignedBlock.seqpairArray[a].ref) == len(alignedBlock.seqpairArray[a].query))
+//@   requires forall(a, 0, len(alignedBlock.posArray), alignedBlock.posArray[a] >= 0)
+//@   loop 1:
+//@     invariant freshslice(insertions) && forall(a, 0, len(alignedBlock.posArray), alignedBlock.posArray[a] >= 0)
+//@     invariant forall(a, 0, len(insertions), insertions[a].start >= 0 && insertions[a].length >= 0)
+//@   loop 2:
+//@     invariant pos >= 0 && freshslice(insertions) && forall(a, 0, len(alignedBlock.posArray), alignedBlock.posArray[a] >= 0)
+//@     invariant forall(a, 0, len(insertions), insertions[a].start >= 0 && insertions[a].length >= 0)
+//@   loop 3:
+//@     invariant len(refSeqArray) == len(alignedBlock.seqpairArray) && len(queSeqArray) == len(alignedBlock.seqpairArray) && freshslice(refSeqArray) && freshslice(queSeqArray) && disjoint(refSeqArray, queSeqArray)
+//@     invariant forall(a, 0, range_i, len(refSeqArray[a]) == len(queSeqArray[a]))
+//@   loop 4:
+//@     invariant len(refSeqArray) == len(alignedBlock.seqpairArray) && len(queSeqArray) == len(alignedBlock.seqpairArray) && len(offsets) == len(alignedBlock.seqpairArray) && freshslice(refSeqArray) && freshslice(queSeqArray) && freshslice(offsets) && disjoint(refSeqArray, queSeqArray)
+//@     invariant forall(a, 0, len(offsets), offsets[a] >= 0)
+//@     invariant forall(a, 0, len(refSeqArray), len(refSeqArray[a]) == len(queSeqArray[a]))
+//@     invariant forall(a, 0, len(insertions), insertions[a].start >= 0 && insertions[a].length >= 0)
+//@   loop 5:
+//@     invariant len(refSeqArray) == len(alignedBlock.seqpairArray) && len(queSeqArray) == len(alignedBlock.seqpairArray) && len(offsets) == len(alignedBlock.seqpairArray) && freshslice(refSeqArray) && freshslice(queSeqArray) && freshslice(offsets) && disjoint(refSeqArray, queSeqArray)
+//@     invariant forall(a, 0, len(offsets), offsets[a] >= 0)
+//@     invariant forall(a, 0, len(refSeqArray), len(refSeqArray[a]) == len(queSeqArray[a]))
+//@     invariant insertion.start >= 0 && insertion.length >= 0
+//@   loop 7:
+//@     invariant max >= 0 && forall(a, 0, range_i, len(refSeqArray[a]) <= max)
+//@   loop 8:
+//@     writes everything
+//@     invariant freshslice(RBlock) && len(RBlock) == range_i && forall(a, 0, range_i, len(RBlock[a]) == max)
+//@     invariant len(refSeqArray) == len(alignedBlock.seqpairArray) && forall(a, 0, len(refSeqArray), len(refSeqArray[a]) <= max && len(refSeqArray[a]) == len(queSeqArray[a]))
+//@   loop 10:
+//@     writes everything
+//@     invariant freshslice(QBlock) && len(QBlock) == range_i && forall(a, 0, range_i, len(QBlock[a]) == max)
+//@     invariant len(queSeqArray) == len(alignedBlock.seqpairArray) && forall(a, 0, len(queSeqArray), len(queSeqArray[a]) <= max)
+//@   ensures [rows.equal] len(result.ref) == len(result.query)
+//@   after call:Sort#1: assert [hint.perm] forall(a, 0, len(insertions), 0 <= sortperm(a) && sortperm(a) < len(insertions) && insertions[a].start >= 0 && insertions[a].length >= 0)
+//@   after append#4: assert [c02.insert.ref] len(newRef) == len(refSeqArray[j]) + insertion.length && forall(k, 0, at, newRef[k] == refSeqArray[j][k]) && forall(k, 0, insertion.length, newRef[at + k] == '-') && forall(k, at, len(refSeqArray[j]), newRef[insertion.length + k] == refSeqArray[j][k])
+//@   after append#7: assert [c02.insert.query] len(newQue) == len(queSeqArray[j]) + insertion.length && forall(k, 0, at, newQue[k] == queSeqArray[j][k]) && forall(k, 0, insertion.length, newQue[at + k] == '-') && forall(k, at, len(queSeqArray[j]), newQue[insertion.length + k] == queSeqArray[j][k])
+
+//@ # C02/C15 window: refToMSA[b] = number of gap columns left of the b-th reference base, so b + refToMSA[b] is that base's column.
+//@ func getRefOffset
+//@   ghost bases int = 0
+//@   loop 1:
+//@     invariant degappedLen == count(k, 0, range_i, refseq[k] != '-')
+//@   loop 2:
+//@     invariant gapsum == count(k, 0, range_i, refseq[k] == '-') && bases == count(k, 0, range_i, refseq[k] != '-') && bases + gapsum == range_i
+//@     invariant len(refToMSA) == count(k, 0, len(refseq), refseq[k] != '-') && freshslice(refToMSA)
+//@     invariant forall(b, 0, bases, refToMSA[b] >= 0 && b + refToMSA[b] < range_i && refseq[b + refToMSA[b]] != '-' && count(k, 0, b + refToMSA[b], refseq[k] != '-') == b)
+//@     do-end if refseq[range_i] != '-' { bases++ }
+//@   ensures len(result) == count(k, 0, len(refseq), refseq[k] != '-') && freshslice(result)
+//@   ensures [column] forall(b, 0, len(result), result[b] >= 0 && b + result[b] < len(refseq) && refseq[b + result[b]] != '-' && count(k, 0, b + result[b], refseq[k] != '-') == b)
+
+//@ # trimAlignment: with --start/--end both rows are cut to the columns from the start-th reference base to the end-th
+//@ # reference base inclusive (insertion columns inside the window are kept); without a window pairs pass unchanged.
+//@ func trimAlignment
+//@   modifies cPairOut
+//@   requires implies(trim, 1 <= trimStart && trimStart <= trimEnd)
+//@   requires implies(trim, forall(t, 0, len(recv(cPairIn)), len(recv(cPairIn)[t].ref) == len(recv(cPairIn)[t].query) && trimEnd <= count(k, 0, len(recv(cPairIn)[t].ref), recv(cPairIn)[t].ref[k] != '-')))
+//@   loop 1:
+//@     invariant len(sent(cPairOut)) == range_i && forall(t, 0, range_i, sent(cPairOut)[t] == recv(cPairIn)[t])
+//@   loop 2:
+//@     invariant len(sent(cPairOut)) == range_i
+//@   before send#2: assert [c02.window] 0 <= adjTrimStart && adjTrimStart < adjTrimEnd && adjTrimEnd <= len(recv(cPairIn)[range_i].ref) && sameslice(pair.ref, recv(cPairIn)[range_i].ref[adjTrimStart:adjTrimEnd]) && sameslice(pair.query, recv(cPairIn)[range_i].query[adjTrimStart:adjTrimEnd])
+//@   before send#2: assert [c02.window.bases] recv(cPairIn)[range_i].ref[adjTrimStart] != '-' && count(k, 0, adjTrimStart, recv(cPairIn)[range_i].ref[k] != '-') == trimStart - 1 && recv(cPairIn)[range_i].ref[adjTrimEnd - 1] != '-' && count(k, 0, adjTrimEnd - 1, recv(cPairIn)[range_i].ref[k] != '-') == trimEnd - 1
+//@   before send#2: assert [c02.window.names] pair.refname == recv(cPairIn)[range_i].refname && pair.queryname == recv(cPairIn)[range_i].queryname && pair.idx == recv(cPairIn)[range_i].idx
+
+//@ # wrap (toPairAlign --wrap): every step appends the next at most w characters of the row and a newline; it stops when
+//@ # the row is used up; w <= 0 means the row and a newline.
+//@ func wrap
+//@   loop 1:
+//@     invariant written >= 0 && wrap > 0
+//@   after append#1: assert [c02.wrap.last] written < len(old) && written + wrap >= len(old) && len(new) == pre(1, len(new)) + len(old) - written + 1 && forall(k, 0, len(old) - written, new[pre(1, len(new)) + k] == old[written + k]) && new[len(new) - 1] == '\n'
+//@   after append#1: assert [c02.wrap.kept] forall(k, 0, pre(1, len(new)), new[k] == pre(1, new[k]))
+//@   after append#2: assert [c02.wrap.chunk] written + wrap < len(old) && len(new) == pre(1, len(new)) + wrap + 1 && forall(k, 0, wrap, new[pre(1, len(new)) + k] == old[written + k]) && new[len(new) - 1] == '\n'
+//@   after append#2: assert [c02.wrap.kept2] forall(k, 0, pre(1, len(new)), new[k] == pre(1, new[k]))
+//@   ensures [nowrap] implies(wrap <= 0, result == old + "\n")
+
+//@ # C12/C19 for `sam toPairAlign -o stdout`: pairs are written in input order (by idx) whatever order they arrive in; the
+//@ # pair whose headers are written is the counter-th by idx (asserted at its query header), the reference record precedes
+//@ # it unless omitted, rows go through wrap; a failed write is reported on cErr. posOf: idx -> arrival position.
+//@ spec posOf(k int) int uninterpreted
+//@ func writePairwiseAlignment
+//@   modifies everything
+//@   requires implies(p == "stdout", forall(k, 0, len(recv(cPair)), 0 <= posOf(k) && posOf(k) < len(recv(cPair)) && recv(cPair)[posOf(k)].idx == k))
+//@   requires implies(p == "stdout", forall(a, 0, len(recv(cPair)), 0 <= recv(cPair)[a].idx && recv(cPair)[a].idx < len(recv(cPair)) && posOf(recv(cPair)[a].idx) == a))
+//@   ghost gDone int = 0
+//@   loop 1:
+//@     invariant p == "stdout" && 0 <= counter && counter <= len(recv(cPair)) && !in(outputMap, counter) && gDone == counter
+//@     do-end gDone = counter
+//@     invariant forallint(k, in(outputMap, k) == (counter <= k && k < len(recv(cPair)) && posOf(k) < range_i))
+//@     invariant forall(k, counter, len(recv(cPair)), implies(posOf(k) < range_i, outputMap[k] == recv(cPair)[posOf(k)]))
+//@     invariant forall(k, 0, counter, posOf(k) < range_i)
+//@     invariant implies(failed(os.Stdout), len(sent(cErr)) >= 1) && len(sent(cWriteDone)) == 0
+//@     invariant len(written(os.Stdout)) == ite(omitRef, 2, 4) * counter
+//@   loop 2:
+//@     invariant p == "stdout" && 0 <= counter && counter <= len(recv(cPair))
+//@     invariant forallint(k, in(outputMap, k) == (counter <= k && k < len(recv(cPair)) && posOf(k) < range_i + 1))
+//@     invariant forall(k, counter, len(recv(cPair)), implies(posOf(k) < range_i + 1, outputMap[k] == recv(cPair)[posOf(k)]))
+//@     invariant forall(k, 0, counter, posOf(k) < range_i + 1)
+//@     invariant implies(failed(os.Stdout), len(sent(cErr)) >= 1) && len(sent(cWriteDone)) == 0
+//@     invariant len(written(os.Stdout)) == ite(omitRef, 2, 4) * counter
+//@     decreases len(recv(cPair)) - counter
+//@   ensures [c19.reported] implies(p == "stdout" && failed(os.Stdout), len(sent(cErr)) >= 1)
+//@   after call:Fprintln#2: assert [c12.order] AP == recv(cPair)[posOf(counter)] && AP.idx == counter && written(os.Stdout)[len(written(os.Stdout)) - 1] == ">" + AP.queryname + "\n"
+//@   after call:Fprintln#1: assert [c12.refrecord] written(os.Stdout)[len(written(os.Stdout)) - 1] == ">" + AP.refname + "\n"
+//@   before send#5: assert [c12.all] implies(p == "stdout", gDone == len(recv(cPair)) && len(written(os.Stdout)) == ite(omitRef, 2, 4) * len(recv(cPair)))
